@@ -13,6 +13,7 @@ CpSeq(S) == LET RECURSIVE F(_)
             IN F(S)
 Emit == Done => PrintT(ToJson([
     types |-> Template,
+    rev |-> Rev,
     parents |-> [i \in 1..N |-> SetToSeq(parents[i])],
     defs |-> [i \in 1..N |-> CpSeq(defs[i])],
     ni |-> [i \in 1..N |-> [j \in 1..Len(SetToSeq(parents[i])) |-> <<SetToSeq(parents[i])[j], CpSeq(ni[i][SetToSeq(parents[i])[j]])>>]],
@@ -20,6 +21,6 @@ Emit == Done => PrintT(ToJson([
     clash |-> AnyClash,
     view |-> [i \in 1..N |-> [j \in 1..Len(NamesSeq) |-> <<NamesSeq[j], View(i, NamesSeq[j], TRUE), View(i, NamesSeq[j], FALSE)>>]],
     eff |-> [i \in 1..N |-> [j \in 1..Len(CpSeq(CpKeys)) |-> <<CpSeq(CpKeys)[j], Effective(i)[CpSeq(CpKeys)[j]]>>]],
-    lookup |-> [i \in 1..N |-> {<<q[1], q[2], Lookup(i, q[1], q[2])>> : q \in {<<"cp1", "">>, <<"cp1", "L1">>, <<"cpx", "">>, <<"cpx", "L1">>}}]
+    lookup |-> [i \in 1..N |-> {<<q[1], q[2], Lookup(i, q[1], q[2])>> : q \in {"cp1", "cpx"} \X {"", "L1", "L2"}}]
   ]))
 =============================================================================
